@@ -36,6 +36,10 @@ def junk_items(rng, spa):
         ("swapped-pair", frame(cid, sid, b"STATP\x01\x00\x10\xff\xff")),
         ("malformed-frame", b"<PACKT>no tags at all</PACKT>"), ("malformed-frame2", b"<PACKT><SRCCN>x</SRCCN></PACKT>"),
         ("malformed-frame3", b"<PACKT><SRCCN>" + sid + b"</SRCCN><DESCN>" + cid + b"</DESCN><DATAS>STATP\x01\x01\x2c\xaa\xbb</PACKT>"),
+        # a well-addressed frame with bytes before / after it: not a frame (malformed framing, no effect)
+        ("padded-nul", good(b"STATP\x01\x01\x2c\x11\x22") + b"\x00\x00\x00"), ("padded-space", good(b"STATP\x01\x01\x2c\x11\x23") + b" "),
+        ("padded-crlf", good(b"STATP\x01\x01\x2c\x11\x24") + b"\r\n"), ("prefixed-nul", b"\x00" + good(b"STATP\x01\x01\x2c\x11\x25")),
+        ("truncated-frame", good(b"STATP\x01\x01\x2c\x11\x26")[:-3]),
         ("raw-unframed-unknown", b"HELLOworld"), ("hello", b"<HELLO>1</HELLO>"),
         ("wcerr", good(b"WCERR")), ("wcerr", good(b"WCERR")), ("statp", good(b"STATP\x01\x03\xf0\x00\x01")),
     ]
@@ -46,7 +50,8 @@ def digest(s):
     return (hashlib.sha1(spa.struct.status_block).hexdigest(), len(s.events), s.man.spa_state.name)
 
 
-MISADDRESSED = {"misaddressed-statp", "misaddressed-dst", "swapped-pair", "malformed-frame", "malformed-frame2", "malformed-frame3"}
+MISADDRESSED = {"misaddressed-statp", "misaddressed-dst", "swapped-pair", "malformed-frame", "malformed-frame2", "malformed-frame3",
+                "padded-nul", "padded-space", "padded-crlf", "prefixed-nul", "truncated-frame"}
 
 
 async def _suspending_handler(sess, man, event, rec, kw):
